@@ -66,6 +66,8 @@ def plan(tier):
     sh += [{'kind': 'masks', 'n': per} for _ in range(2)]
     n, per = (6, 800) if tier == 'quick' else (8, 40000)
     sh += [{'kind': 'framing', 'n': per} for _ in range(n)]
+    if tier == 'thorough':       # coverage-guided campaigns on the same tests (atheris), own seed and corpus each
+        sh += [{'kind': 'fuzz', 'target': 'framing', 'runs': 100000} for _ in range(4)] + [{'kind': 'fuzz', 'target': 'hands', 'runs': 60000}, {'kind': 'fuzz', 'target': 'masks', 'runs': 60000}]
     from vf.props import _session
     return sh + _session.plan_c19(tier)
 
@@ -249,6 +251,27 @@ EOF_POS = st.one_of(st.tuples(st.just('between'), st.integers(0, 6)),
                     st.tuples(st.just('after_cr'), st.integers(0, 5)))
 
 
+def fuzz_target(k, stats):
+    """(test function, strategies) - shared by the in-process Hypothesis tier and the atheris tier."""
+    if k == 'hands':
+        hand = st.one_of(st.sets(st.integers(0, 51), max_size=13),
+                         st.tuples(st.sets(st.integers(0, 3), min_size=1, max_size=3), st.sets(st.integers(0, 51), max_size=13))
+                         .map(lambda t: {c for c in t[1] if c // 13 in t[0]}))
+        return (lambda cards, who: check_hand(set(cards), who, stats), {'cards': hand, 'who': st.sampled_from(be.FORMAL + ['Dummy'])})
+    if k == 'masks':
+        def t(call, seat, alert, card, notation, mask):
+            check_call(call, seat, None, alert, stats, mask=mask)
+            check_card(card, seat, notation, None, stats, mask=mask)
+        return (t, {'call': st.integers(0, 37), 'seat': st.integers(0, 3), 'alert': st.sampled_from(ALERTS),
+                    'card': st.integers(0, 51), 'notation': st.sampled_from(['rank-suit', 'suit-rank']),
+                    'mask': st.integers(0, 2 ** 60 - 1)})
+
+    def t(messages, cuts, eof, send):
+        check_framing(messages, cuts, eof, stats)
+        check_send(send, stats)
+    return (t, {'messages': st.lists(MSG, max_size=6), 'cuts': st.lists(st.integers(0, 400), max_size=12), 'eof': EOF_POS, 'send': MSG})
+
+
 def run_shard(spec, seed, tier, stats):
     shrink = tier == 'thorough'
     k = spec['kind']
@@ -273,27 +296,12 @@ def run_shard(spec, seed, tier, stats):
                         except Violation as v:
                             fails.setdefault(v.clause, v)
         return list(fails.values())
-    if k == 'hands':
-        hand = st.one_of(st.sets(st.integers(0, 51), max_size=13),
-                         st.tuples(st.sets(st.integers(0, 3), min_size=1, max_size=3), st.sets(st.integers(0, 51), max_size=13))
-                         .map(lambda t: {c for c in t[1] if c // 13 in t[0]}))
-        v = run_hypothesis(lambda cards, who: check_hand(set(cards), who, stats),
-                           {'cards': hand, 'who': st.sampled_from(be.FORMAL + ['Dummy'])}, seed, spec['n'], shrink)
-        return [v] if v else []
-    if k == 'masks':
-        def t(call, seat, alert, card, notation, mask):
-            check_call(call, seat, None, alert, stats, mask=mask)
-            check_card(card, seat, notation, None, stats, mask=mask)
-        v = run_hypothesis(t, {'call': st.integers(0, 37), 'seat': st.integers(0, 3), 'alert': st.sampled_from(ALERTS),
-                               'card': st.integers(0, 51), 'notation': st.sampled_from(['rank-suit', 'suit-rank']),
-                               'mask': st.integers(0, 2 ** 60 - 1)}, seed, spec['n'], shrink)
-        return [v] if v else []
-    if k == 'framing':
-        def t(messages, cuts, eof, send):
-            check_framing(messages, cuts, eof, stats)
-            check_send(send, stats)
-        v = run_hypothesis(t, {'messages': st.lists(MSG, max_size=6), 'cuts': st.lists(st.integers(0, 400), max_size=12),
-                               'eof': EOF_POS, 'send': MSG}, seed, spec['n'], shrink)
+    if k == 'fuzz':
+        from vf.common.fuzz import run_fuzz_shard
+        return run_fuzz_shard(ID, spec, seed, stats)
+    if k in ('hands', 'masks', 'framing'):
+        fn, strategies = fuzz_target(k, stats)
+        v = run_hypothesis(fn, strategies, seed, spec['n'], shrink)
         return [v] if v else []
     from vf.props import _session
     return _session.run_shard_c19(spec, seed, tier, stats)
